@@ -118,6 +118,43 @@ fn decoder_running(stream: &[u8], plain: &[u8], mode: Mode, blen: usize, chunk: 
 }
 
 /// mz_stream.adler after every mz_deflate / mz_inflate call of a schedule.
+/// mz_deflateInit2, `first` bytes compressed (not finished when first is odd), mz_deflateReset, then
+/// probe 0: an empty MZ_SYNC_FLUSH call; 1: an empty MZ_FINISH call; 2: an empty MZ_NO_FLUSH call
+/// (may answer MZ_BUF_ERROR); 3: 50 bytes with MZ_NO_FLUSH. After the probe call mz_stream.adler
+/// must be the Adler-32 of what the *second* stream has consumed.
+fn reset_then_idle(level: i32, wbits: i32, strategy: i32, first: usize, probe: u8) -> Result<(), String> {
+    unsafe {
+        let data = corpus::shape_named("T", &[(crate::gen::Seg::T, 40_100)]).data;
+        let mut zs = capi::new_stream();
+        if miniz_oxide_c_api::mz_deflateInit2(&mut zs, level, 8, wbits, 9, strategy) != 0 {
+            return Err("mz_deflateInit2 failed".into());
+        }
+        let mut ip = 0;
+        while ip < first {
+            let o = capi::stream_call(&mut zs, false, &data, ip, first - ip, 100_000, if first % 2 == 0 { 4 } else { 0 }, Place::End)?;
+            ip += o.consumed;
+            if o.ret == 1 || (o.consumed == 0 && o.written == 0) {
+                break;
+            }
+        }
+        if miniz_oxide_c_api::mz_deflateReset(&mut zs) != 0 {
+            miniz_oxide_c_api::mz_deflateEnd(&mut zs);
+            return Err("mz_deflateReset failed".into());
+        }
+        let (k, flush) = match probe {
+            0 => (0, 2),
+            1 => (0, 4),
+            2 => (0, 0),
+            _ => (50, 0),
+        };
+        let o = capi::stream_call(&mut zs, false, &data, 0, k, 100_000, flush, Place::End)?;
+        let want = adler32_def(1, &data[..o.consumed]);
+        let res = if o.adler != want { Err(format!("after mz_deflateReset and an mz_deflate call (flush {}, {} bytes offered, returned {}, {} consumed) mz_stream.adler = {:#x}, Adler-32 of the consumed input is {:#x}", flush, k, o.ret, o.consumed, o.adler, want)) } else { Ok(()) };
+        miniz_oxide_c_api::mz_deflateEnd(&mut zs);
+        res
+    }
+}
+
 fn stream_adler(input: &[u8], level: i32, chunk: usize, room: usize, wbits: i32, strategy: i32, mid_flush: i32) -> Result<u64, String> {
     unsafe {
         let mut n = 0;
@@ -459,6 +496,25 @@ fn run_main(rep: Report) -> i32 {
         });
         running += r4.iter().sum::<u64>();
     }
+    // a stream recycled with mz_deflateReset: the field after calls that consume nothing (an empty
+    // flush, an empty MZ_FINISH) and after the first bytes of the second stream
+    if !simd {
+        for level in [0i32, 1, 6, 9] {
+            for (wbits, strategy) in [(15, 0), (-15, 0), (15, 4), (-15, 2)] {
+                for first in [0usize, 1, 100, 40_000] {
+                    for probe in 0..4u8 {
+                        running += 1;
+                        let r = guarded(|| reset_then_idle(level, wbits, strategy, first, probe));
+                        match r {
+                            Ok(Ok(())) => {}
+                            Ok(Err(e)) => rep.violation("C16/stream-adler/after-reset", format!("{} :: level {} window_bits {} strategy {} first stream {} bytes", e, level, wbits, strategy, first), json!({"kind": "reset-idle", "level": level, "wbits": wbits, "strategy": strategy, "first": first, "probe": probe})),
+                            Err(p) => rep.violation("C16/panic", format!("panic {}", p), json!({"kind": "reset-idle", "level": level, "wbits": wbits, "strategy": strategy, "first": first, "probe": probe})),
+                        }
+                    }
+                }
+            }
+        }
+    }
     // the running checksum is a function of the input consumed, not of the settings: it must survive
     // every setter call made while input is pending (no block emitted yet) or after blocks went out
     if !simd {
@@ -545,6 +601,7 @@ pub fn replay(v: &Value) -> Option<String> {
             let f = |x: u64| if x >= 1 << 40 { usize::MAX } else { x as usize };
             decoder_running(&s, &plain, mode, v["buflen"].as_u64()? as usize, f(v["chunk"].as_u64()?), f(v["budget"].as_u64()?)).err()
         }
+        "reset-idle" => reset_then_idle(v["level"].as_i64()? as i32, v["wbits"].as_i64()? as i32, v["strategy"].as_i64()? as i32, v["first"].as_u64()? as usize, v["probe"].as_u64()? as u8).err(),
         "stream" => {
             let name = v["input"].as_str()?;
             let mut ins = corpus::medium_inputs();
